@@ -322,6 +322,7 @@ func TestVerifC09(t *testing.T) {
 			}
 			forkSwitchCrash(w, rep, r, sc, at)
 		}
+		fastSyncCrash(w, rep, r, sc)
 		flushCounters(rep, w, s)
 		w.Cleanup()
 	}
@@ -470,5 +471,67 @@ func forkSwitchCrash(w *World, rep *verifutil.Report, r *verifutil.Rng, sc, at i
 				rep.Violation("recovered-node-diverges:"+scenario+":"+phase, fmt.Sprintf("%s crashed at write %d (%s): after recovery the node is at %s, the never-crashed node at %s", scenario, k, phase, dd, refv.digest), nil)
 			}
 		}
+	}
+}
+
+// fastSyncCrash: crash at every write of the final phase of a fast sync (snapshot import,
+// forced identity version, atomic switch to the preliminary head).
+func fastSyncCrash(w *World, rep *verifutil.Report, r *verifutil.Rng, sc int) {
+	server := w.Replicas[1]
+	head := server.Head().Height()
+	if head < 40 {
+		return
+	}
+	snapH := head - uint64(r.Range(3, 30))
+	scenario := "FastSyncFinish(RecoverSnapshot2+SaveForcedVersion+AtomicSwitchToPreliminary)"
+	// reference + write count
+	cdb := NewCrashDB(dbm.NewMemDB())
+	run, err := FastSyncHeaders(w, server, cdb, snapH)
+	if err != nil {
+		rep.Note("fast sync header phase failed: %v", err)
+		return
+	}
+	cdb.Arm(0)
+	if err := run.Finish(); err != nil {
+		rep.Note("fast sync finish failed on the reference: %v", err)
+		return
+	}
+	n := cdb.Writes
+	wlog := append([]string{}, cdb.Log...)
+	cdb.Disarm()
+	var feed []*types.Block
+	for _, b := range w.Blocks {
+		feed = append(feed, b)
+	}
+	for _, b := range feed {
+		if b.Height() > run.S.Head().Height() {
+			if err := run.S.Chain.AddBlock(b, nil, run.S.Stats); err != nil {
+				rep.Note("fast-synced reference refused block %d: %v", b.Height(), err)
+				return
+			}
+		}
+	}
+	refv := c09ref{head: run.S.Head().Hash().Hex(), digest: DigestState(run.S.AppState)}
+	rep.Max("max_writes_in_fast_sync_finish", n)
+	for _, k := range crashPoints(n, r, verifutil.Thorough()) {
+		phase := writePhase(wlog[k-1])
+		rep.Progress("C09 scenario %d: fast sync finish crash at write %d/%d (%s)", sc, k, n, phase)
+		cdb := NewCrashDB(dbm.NewMemDB())
+		run, err := FastSyncHeaders(w, server, cdb, snapH)
+		if err != nil {
+			continue
+		}
+		cdb.Arm(k)
+		crashed, other := cdb.RunToCrash(func() { run.Finish() })
+		if other != nil || !crashed {
+			continue
+		}
+		rep.Eval(1)
+		rep.Count("crash_points", 1)
+		rep.Count("phase:"+phase, 1)
+		rep.Count("scenario:"+scenario, 1)
+		rep.Distinct(scenario, phase, k, snapH)
+		// the head before the switch is the node's old head (genesis here); after it, snapH
+		recoverAndCheck(w, rep, scenario, phase, k, CloneDB(cdb.Inner()), 1, feed, refv)
 	}
 }
